@@ -167,10 +167,19 @@ func runHsrvCase(t *testing.T, c map[string]any, tmp string) map[string]any {
 	if b, _ := cfg["tmpl_absent"].(bool); b { /* a template path is configured, the file is not there (yet) when the server starts */
 		tmplf = filepath.Join(base, "callback.tmpl")
 	}
+	tmplLinked, tmplGen := false, 0
 	if v, ok := cfg["tmpl"]; ok && nil != v {
 		tmplf = filepath.Join(base, "callback.tmpl")
 		if s, ok := v.(string); ok {
-			os.WriteFile(tmplf, hxd(s), 0600)
+			if b, _ := cfg["tmpl_symlink"].(bool); b {
+				/* The configured path is a symbolic link into a directory of releases; an edit is a new release plus an atomic re-point. */
+				tmplLinked = true
+				os.MkdirAll(filepath.Join(base, "releases"), 0700)
+				os.WriteFile(filepath.Join(base, "releases", "v0.tmpl"), hxd(s), 0600)
+				os.Symlink(filepath.Join("releases", "v0.tmpl"), tmplf)
+			} else {
+				os.WriteFile(tmplf, hxd(s), 0600)
+			}
 		}
 	}
 	certFile := ""
@@ -562,7 +571,16 @@ func runHsrvCase(t *testing.T, c map[string]any, tmp string) map[string]any {
 				ar["error"] = err.Error()
 			}
 		case "tmpl": /* edit / remove the template file */
-			if v, ok := am["c"].(string); ok {
+			if v, ok := am["c"].(string); ok && tmplLinked {
+				oldT := filepath.Join(base, "releases", fmt.Sprintf("v%d.tmpl", tmplGen))
+				tmplGen++
+				rel := filepath.Join("releases", fmt.Sprintf("v%d.tmpl", tmplGen))
+				os.WriteFile(filepath.Join(base, rel), hxd(v), 0600)
+				os.Remove(tmplf + ".new")
+				os.Symlink(rel, tmplf+".new")
+				os.Rename(tmplf+".new", tmplf)
+				os.Remove(oldT)
+			} else if ok {
 				os.WriteFile(tmplf, hxd(v), 0600)
 				if b, _ := am["keep_mtime"].(bool); b { /* an edit within the clock's granularity, or by a tool which restores times */
 					mt := time.Unix(1600000000, 0)
